@@ -82,7 +82,7 @@ def descendants(pv, i):
     return sorted(out)
 
 
-def program(pv, d):
+def program(pv, d, warm=None):
     D = 'C%d' % d
     classes = class_defs(pv) + [{'n': 'Holder', 'fields': [['z', I], ['h', ['c', D, {}]]]}]
     ms = [
@@ -94,9 +94,11 @@ def program(pv, d):
     ]
     # methods whose declared type is a proper descendant of D: called once before the cases ("warm-up" histories) so
     # that whatever a protocol instance caches for a subclass exists before the subclass travels under its base
-    for j in descendants(pv, d):
-        if j != d:
-            ms.append({'n': 'warm%d' % j, 'args': [['a', ['c', 'C%d' % j, {}]]], 'ret': ['c', 'C%d' % j, {}]})
+    # (only in the programs of the warm-up histories: otherwise every descendant would be referenced by a method of its own,
+    # and classes that are reachable through their base's subclass list alone would not exist in any program)
+    if warm is not None:
+        j = int(warm[1:])
+        ms.append({'n': 'warm%d' % j, 'args': [['a', ['c', 'C%d' % j, {}]]], 'ret': ['c', 'C%d' % j, {}]})
     return {'tns': TNS, 'classes': classes, 'services': [{'n': 'S', 'methods': ms}]}
 
 
@@ -177,6 +179,7 @@ def run_shard(shard, only=None):
     tree_id = ''.join('-' if p is None else str(p) for p in pv)
     warms = [None] + [x for x in descs if x != D]
     for poly, warm in itertools.product((True, False), warms):
+        prog = program(pv, d, warm)
         if fam == 'xml':
             h = harness.XmlHarness(prog, proto, None, in_kw={'polymorphic': poly}, out_kw={'polymorphic': poly})
         else:
